@@ -348,7 +348,18 @@ def tyg_captures(ctx, prog):
 
 tyg_captures.rule_id = "C12.TYG-captures"
 
-RULES = [tyg_strong, pdom_breaker, unlink_queued, tyg_captures]
+def guard_sentinel(ctx, prog):
+    """The last handle of an observer always disallows it (handle count = sentinel count, not strong references to the
+    internal observer): otherwise the observer stays in all_observers for ever and its cone is never released. Same
+    rule as C10.GUARD-sentinel."""
+    from .engine import run_relabelled
+    from .c10 import guard_sentinel as f
+    run_relabelled(ctx, prog, f, "C10.GUARD-sentinel", "C12.GUARD-sentinel")
+
+
+guard_sentinel.rule_id = "C12.GUARD-sentinel"
+
+RULES = [tyg_strong, pdom_breaker, unlink_queued, tyg_captures, guard_sentinel]
 
 # control signature of the bookkeeping effects this property depends on (rules/ctrlsig.py)
 from .ctrlsig import make_rule as _ctrl_rule  # noqa: E402
